@@ -32,7 +32,7 @@ def check(pid, level, text, note, technique, engine, design_ref=None):
     }
 
 check("C10", "exploration",
-      "The real round-robin FairnessCounter is driven (directly, through real MPCalContexts running hand-built sections, and through the shipped NonDetExploration archetypes) over thousands of PRNG-generated choice structures; an oracle checks range, panic-freedom and the sliding-window exactly-once / leaf-coverage laws on every attempt. Held on the structures generated, not proved for all.",
+      "The real round-robin FairnessCounter is driven (directly, through real MPCalContexts running hand-built sections, and through the shipped NonDetExploration archetypes) over thousands of PRNG-generated choice structures; an oracle checks range, panic-freedom and the sliding-window exactly-once / leaf-coverage laws on every attempt, also after a structure change on the same label (a bound grows or shrinks, an id changes, a choice point is added) once the new structure stays fixed. Held on the structures generated, not proved for all.",
       "Exactly-once coverage is demanded only for fixed structures (the statement's own condition); prefix-stable structures are checked for leaf coverage per window once every choice point exists; arbitrary id/bound changes for range and panic-freedom only.",
       "runtime monitor: sliding-window permutation oracle over choices returned by the real fairness counter", "direct")
 
